@@ -218,17 +218,34 @@ theorem SInv_armStub {syms N} (s : HState) (id : Nat) (mk : Mocker) (w : WhenS) 
 
 /-- every step of the handle-level model keeps the invariants, provided the name its lookup names is in `N` -/
 theorem step_inv {syms N} (entries : List Entry) (s : HState) (k : Nat) (st : Step)
-    (hN : ∀ l, stepLook st = some l → ∀ n, lookName entries l = some n → n ∈ N) (h : SInv syms N s) :
+    (hN : ∀ n, stepName entries st = some n → n ∈ N) (h : SInv syms N s) :
     SInv syms N (step syms entries s k st).1 := by
   cases st with
+  | direct hh d =>
+    simp only [step]
+    simp only [stepName] at hN
+    split
+    · exact h
+    · rename_i name hd
+      simp only [hd] at hN
+      exact ⟨h.1, NI_set h.2 _ _ (hN name rfl)⟩
+  | redirect hh d =>
+    simp only [step]
+    simp only [stepName] at hN
+    refine SInv_withMk s hh _ h (fun id mk _ => ?_)
+    split
+    · exact h
+    · rename_i name hd
+      simp only [hd] at hN
+      exact SInv_setMk s id _ (hN name rfl) h
   | shot l =>
-    have hl := lookup_inv (syms := syms) entries s l (hN l rfl) h.1 h.2
+    have hl := lookup_inv (syms := syms) entries s l (fun n hn => hN n hn) h.1 h.2
     simp only [step]
     split
     · exact hl
     · exact SInv_applyCb _ _ _ hl
   | look hh l =>
-    have hl := lookup_inv (syms := syms) entries s l (hN l rfl) h.1 h.2
+    have hl := lookup_inv (syms := syms) entries s l (fun n hn => hN n hn) h.1 h.2
     simp only [step]
     split
     · exact hl
@@ -276,7 +293,7 @@ theorem step_inv {syms N} (entries : List Entry) (s : HState) (k : Nat) (st : St
     exact SInv_foldl_cancel _ s h
 
 theorem run_inv {syms N} (entries : List Entry) : ∀ (steps : List Step) (s : HState) (k : Nat),
-    (∀ st ∈ steps, ∀ l, stepLook st = some l → ∀ n, lookName entries l = some n → n ∈ N) → SInv syms N s →
+    (∀ st ∈ steps, ∀ n, stepName entries st = some n → n ∈ N) → SInv syms N s →
     SInv syms N (run syms entries s k steps).1 := by
   intro steps
   induction steps with
